@@ -26,13 +26,15 @@ Section Refine.
     rewrite andb_false_r.
     assert (Harr : match j with JArr items => spec_arrays e ev l empty_schema items | _ => Some (true, []) end
                    = Some (true, [])).
-    { destruct j as [| | | |items|]; try reflexivity. unfold spec_arrays.
+    { destruct j as [| | | |items|]; try reflexivity.
+      unfold spec_arrays, ar_prefix, ar_rest, ar_contains, ar_prefix_list, ar_prefix_name, ar_rest_schema.
       cbn [empty_schema s_itemsArray s_prefixItems s_additionalItems s_items s_contains olist option_map].
       destruct (e_draft7 e); destruct items; reflexivity. }
     rewrite Harr.
     assert (Hobj : match j with JObj m => spec_objects re_match e ev j l empty_schema m | _ => Some (true, sig0, sig0) end
                    = Some (true, match j with JObj m => mkSigma [] [] | _ => sig0 end, sig0)).
-    { destruct j as [| | | | |m]; try reflexivity. unfold spec_objects.
+    { destruct j as [| | | | |m]; try reflexivity.
+      unfold spec_objects, ob_ev_props, ob_ev_pats, ob_ev_add, ob_ev_names, ob_ev_deps, ob_additional, ob_p_props, ob_p_pats, ob_deps, ob_deps_name.
       cbn [empty_schema s_properties s_patternProperties s_additionalProperties s_propertyNames s_dependencySchemas
                         s_dependentSchemas olist eval_all existsb].
       assert (Hd : (if e_draft7 e then @nil (str * schema) else []) = []) by (destruct (e_draft7 e); reflexivity).
